@@ -1,7 +1,7 @@
 """T1 plug-in: Gen/Sites.v - every place in the C01 anchor files of usvg that can panic.
 
 Listed: `.unwrap()`, `.expect(`, `assert!` / `assert_eq!` / `assert_ne!`, `debug_assert!` / `debug_assert_eq!` /
-`debug_assert_ne!`, `unreachable!`, `panic!`, `unimplemented!` / `todo!`, and index / slice expressions
+`debug_assert_ne!`, `unreachable!`, `panic!`, `unimplemented!` / `todo!`, calls of `.bbox_transform(` (unwraps inside tiny-skia-path), and index / slice expressions
 `x[..]` in  crates/usvg/src/parser/**, tree/mod.rs, tree/filter.rs.
 
 Key of a site: (file, enclosing fn, kind, normalised text of the statement up to the site, ordinal among
@@ -23,6 +23,9 @@ KINDS = [
     ('assert', r"(?<![A-Za-z0-9_])assert(?:_eq|_ne)?\s*!"),
     ('unreachable', r"\bunreachable\s*!"),
     ('panic', r"\b(?:panic|unimplemented|todo)\s*!"),
+    # methods of tiny-skia-path that unwrap internally (Rect / NonZeroRect::bbox_transform: `from_xywh(..).unwrap()` on products
+    # that overflow for finite operands; usvg goes through parser::checked_bbox_transform since fix 5c0a250): a call is a panic site
+    ('panic', r"\.\s*bbox_transform\s*\("),
 ]
 
 
